@@ -290,6 +290,12 @@ func GenDoc(t reflect.Type, c Ch, depth int) *Doc {
 			keys = []string{`"1"`, `"-1"`}
 		case reflect.Uint, reflect.Uint8, reflect.Uint16, reflect.Uint32, reflect.Uint64, reflect.Uintptr:
 			keys = []string{`"1"`, `"2"`}
+		case reflect.Ptr, reflect.Array:
+			keys = []string{`"5"`, `"6"`}
+		case reflect.Bool:
+			keys = []string{`"true"`, `"false"`}
+		case reflect.Float64, reflect.Float32:
+			keys = []string{`"1.5"`, `"2"`}
 		}
 		e := func() *Doc { return GenDoc(t.Elem(), c, depth+1) }
 		switch c.Deviate(8) {
